@@ -244,7 +244,7 @@ func init() {
 			return l
 		},
 		Floors: func(string) map[string]int64 {
-			return map[string]int64{"positions": 2000, "mirror_checks": 8000, "plausible_checks": 8000, "book_lookups": 9000, "book_hits": 20, "considerable_selected": 500}
+			return map[string]int64{"positions": 2000, "mirror_checks": 8000, "plausible_checks": 8000, "book_lookups": 9000, "book_hits": 20, "considerable_selected": 500, "boxed_king_positions": 300}
 		},
 		Run: func(c *fw.Ctx, cs fw.Case) {
 			r := cs.Rand()
@@ -252,7 +252,14 @@ func init() {
 			case "positions":
 				for i := 0; i < cs.N; i++ {
 					var h gen.Hist
-					switch i % 5 {
+					switch i % 6 {
+					case 5:
+						if p, ok := gen.BoxedKing(r); ok {
+							h = gen.Hist{Start: p}
+							c.Count("boxed_king_positions", 1)
+						} else {
+							h = randomHist(r, 30)
+						}
 					case 0:
 						h = gen.Hist{Start: gen.TacticOK(r, r.Intn(gen.NumTactics))}
 						h = gen.Playout(r, h.Start, r.Intn(4), gen.Tactical)
